@@ -146,14 +146,16 @@ func verifyFuncMode(p *Program, fc *FuncContract, prop string, unroll int) (u *U
 	exit := x.merge(envs)
 	for i := len(cx.defers) - 1; i >= 0; i-- {
 		d := cx.defers[i]
-		if m, ok := exit.vars[d.obj]; ok && w.IsMap(m.Sort) {
+		if m := x.eval(d.expr, exit); w.IsMap(m.Sort) {
 			dom, _ := w.Field(m, "dom")
 			val, _ := w.Field(m, "val")
 			card, _ := w.Field(m, "card")
 			nv := w.Mk(m.Sort, Store(dom, d.key, False), val, Ite(Select(dom, d.key), Arith("-", card, IntLit(1)), card))
 			r := Ite(d.pc, nv, m)
 			r.GoT = m.GoT
-			exit.vars[d.obj] = r
+			x.quiet++
+			x.assign(d.expr, r, exit)
+			x.quiet--
 		}
 	}
 	names := contractResultNames(fi, fc)
